@@ -228,6 +228,7 @@ type progOpts struct {
 	quiesce      bool
 	maxTx        uint32 // maximum payload option (0 = default)
 	txFirst      bool   // the maximum payload option is given before the allocator option
+	putOnly      bool   // request server whose handlers do not implement OpenFileWriter
 }
 
 func responseBytes(fs []frame) [][]byte {
@@ -241,7 +242,7 @@ func responseBytes(fs []frame) [][]byte {
 func progScenario(o progOpts, prop string) explore.Scenario {
 	return func() (func(), func(*vsched.Exec) explore.Verdict) {
 		setup, burst, files := program(o.name, o.server)
-		spec := &srvSpec{server: o.server, alloc: o.alloc, setup: setup, burst: burst, files: files, hangup: -1, readOnly: o.readOnly, maxTx: o.maxTx, txFirst: o.txFirst}
+		spec := &srvSpec{server: o.server, alloc: o.alloc, setup: setup, burst: burst, files: files, hangup: -1, readOnly: o.readOnly, maxTx: o.maxTx, txFirst: o.txFirst, putOnly: o.putOnly}
 		var r *srvRun
 		var usedAtQuiescence, usedKeyOK = -1, true
 		body := func() {
@@ -345,11 +346,11 @@ func (r *srvRun) driveQ(atQuiescence func()) {
 }
 
 // reference runs the program once with the allocator off under the default schedule.
-func progReference(server, name string, maxTx uint32) [][]byte {
+func progReference(server, name string, maxTx uint32, putOnly bool) [][]byte {
 	var ref [][]byte
 	sc := func() (func(), func(*vsched.Exec) explore.Verdict) {
 		setup, burst, files := program(name, server)
-		spec := &srvSpec{server: server, setup: setup, burst: burst, files: files, hangup: -1, maxTx: maxTx}
+		spec := &srvSpec{server: server, setup: setup, burst: burst, files: files, hangup: -1, maxTx: maxTx, putOnly: putOnly}
 		var r *srvRun
 		return func() { r = spec.start(); r.drive() }, func(e *vsched.Exec) explore.Verdict {
 			ref = responseBytes(r.frames)
@@ -371,10 +372,10 @@ func runProgs(c *reg.Ctx, prop string, alloc, compare bool) *reg.Result {
 			total.Exhaustive = false
 			break
 		}
-		o := progOpts{server: server, name: name, alloc: alloc, quiesce: alloc, readOnly: name == "romix", maxTx: uint32(c.ArgInt("maxtx", 0)), txFirst: c.Arg("txfirst", "0") == "1"}
+		o := progOpts{server: server, name: name, alloc: alloc, quiesce: alloc, readOnly: name == "romix", maxTx: uint32(c.ArgInt("maxtx", 0)), txFirst: c.Arg("txfirst", "0") == "1", putOnly: c.Arg("putonly", "0") == "1"}
 		if compare || progDeterministic[name] {
 			// the expected response bytes do not depend on the schedule: compared with a reference run (default schedule, no allocator)
-			o.ref = progReference(server, name, o.maxTx)
+			o.ref = progReference(server, name, o.maxTx, o.putOnly)
 		}
 		r := explore.Run(explore.Config{Prop: prop, Strategy: c.Arg("strategy", "db"), Bound: c.ArgInt("bound", 2), Ctx: c, Label: c.Part}, progScenario(o, prop))
 		total.Evaluations += r.Evaluations
@@ -418,6 +419,7 @@ func init() {
 var _ = os.Remove
 
 func init() {
+	of := func(j reg.Job) reg.Job { j.Args["putonly"] = "1"; return j }
 	pj := func(part, label, build, server, progs string, bound, budget int, alloc bool) reg.Job {
 		a := map[string]string{"server": server, "progs": progs, "bound": fmt.Sprint(bound)}
 		if alloc {
@@ -438,6 +440,8 @@ func init() {
 					pj("C02/sched", "rs W=8 db3", "instr", "rs", "rwmix+cmdmix+extmix+rsplit", 3, 900, false),
 					pj("C02/sched", "rs W=2 db4", "instr-w2", "rs", "rwmix+cmdmix", 4, 900, false),
 					pj("C02/sched", "rs W=3 alloc db3", "instr-w3", "rs", "rwmix+extmix", 3, 600, true),
+					of(pj("C02/sched", "rs (handlers without OpenFileWriter) W=2 db3", "instr-w2", "rs", "rwmix+short", 3, 600, false)),
+					of(pj("C02/sched", "rs (handlers without OpenFileWriter) W=8 db2", "instr", "rs", "rwmix+short", 2, 600, false)),
 					pj("C02/sched", "os W=8 db3", "instr", "os", "rwmix+cmdmix+extmix+romix", 3, 900, false),
 					pj("C02/sched", "os W=2 db3 alloc", "instr-w2", "os", "rwmix+cmdmix+extmix", 3, 600, true),
 					pj("C02/sched", "rs W=2 six reads db4", "instr-w2", "rs", "reads6", 4, 600, false),
@@ -454,6 +458,7 @@ func init() {
 					pj("C02/sched", "os W=2 db2", "instr-w2", "os", "rwmix+cmdmix+extmix", 2, 100, false),
 					pj("C02/sched", "os read-only W=2 db2", "instr-w2", "os", "romix", 2, 100, false),
 					pj("C02/sched", "rs W=2 alloc db2", "instr-w2", "rs", "rwmix+cmdmix+rsplit", 2, 100, true),
+					of(pj("C02/sched", "rs (handlers without OpenFileWriter) W=2 db2", "instr-w2", "rs", "rwmix+short", 2, 100, false)),
 					pj("C02/sched", "rs W=2 six reads db2", "instr-w2", "rs", "reads6", 2, 100, false),
 					pj("C02/sched", "os W=2 six reads db2", "instr-w2", "os", "reads6", 2, 100, false),
 					pj("C02/sched", "rs W=2 twelve reads db2", "instr-w2", "rs", "reads12", 2, 100, false),
@@ -501,6 +506,7 @@ func init() {
 				js = []reg.Job{
 					pj("C18/sched", "rs W=8 db3", "instr", "rs", "rwmix+rw3+cmdmix+rsplit+rweof", 3, 900, true),
 					pj("C18/sched", "rs W=2 db4", "instr-w2", "rs", "rwmix+rw3", 4, 900, true),
+					of(pj("C18/sched", "rs (handlers without OpenFileWriter) W=2 db3", "instr-w2", "rs", "rwmix+rw3+rweof+reads6", 3, 900, true)),
 					pj("C18/sched", "rs W=2 db3 read crossing EOF", "instr-w2", "rs", "rweof", 3, 900, true),
 					pj("C18/sched", "os W=3 db3", "instr-w3", "os", "rwmix+rw3", 3, 900, true),
 					pj("C18/sched", "os W=2 db3", "instr-w2", "os", "rw2", 3, 600, true),
@@ -518,6 +524,7 @@ func init() {
 					pj("C18/sched", "rs W=8 db2", "instr", "rs", "rw3", 2, 100, true),
 					pj("C18/sched", "rs W=2 db2 five programs", "instr-w2", "rs", "rwmix+rw3+cmdmix+extmix+rsplit", 2, 100, true),
 					pj("C18/sched", "rs W=2 db3", "instr-w2", "rs", "rw2", 3, 100, true),
+					of(pj("C18/sched", "rs (handlers without OpenFileWriter) W=2 db2", "instr-w2", "rs", "rwmix+rw3+rweof", 2, 100, true)),
 					pj("C18/sched", "rs W=2 db2 read crossing EOF", "instr-w2", "rs", "rweof", 2, 100, true),
 					pj("C18/sched", "os W=2 db2", "instr-w2", "os", "rwmix+rw3", 2, 100, true),
 					pj("C18/sched", "rs W=2 db2 path kept across buffer reuse", "instr-w2", "rs", "pathkeep", 2, 100, true),
